@@ -88,16 +88,14 @@ Qed.
 (* ... and with the reference decoder: the application reads exactly the reference's messages, then its error *)
 Theorem consumer_refines_rfc c cx0 ops :
   let d := decode Cx decomp rfc_profile c cx0 (concat (feeds_of ops)) in
-  (forall e, snd d <> Violation e VDataInMessage) ->
   fst (app_observe Cx (app_run Cx decomp c (app0 cx0) ops)) = fst d /\
   match snd (app_observe Cx (app_run Cx decomp c (app0 cx0) ops)) with
   | Some e => out_status (snd d) = SFailed e
   | None => out_status (snd d) = SPending
   end.
 Proof.
-  cbn zeta. intro Hno. rewrite consumer_independent. cbn [fst snd].
+  cbn zeta. rewrite consumer_independent. cbn [fst snd].
   destruct (refines_rfc Cx decomp c cx0 [concat (feeds_of ops)]) as (R1 & R2).
-  { cbn [concat]. rewrite app_nil_r. exact Hno. }
   cbn [feed_all concat] in R1, R2. rewrite app_nil_r in *.
   destruct (feed Cx decomp c (Live (init_state Cx cx0)) (concat (feeds_of ops))) as [ev rd] eqn:F.
   cbn [fst snd] in *. rewrite app_nil_r in R1. split; [exact R1|].
